@@ -84,7 +84,17 @@ shows with history is confirmed by a second complete run in a fresh process inst
 (2) *alphabets need relations, not only members* — names that are prefixes of each other, names that
 spell another node's path, issuer identifiers that differ by a trailing slash, pairs of special strings
 in one value, two holder keys under one `kid`; (3) *small scope needs a few deliberately large
-members* — 300 and 1100-entry containers, 300-draw bursts, 400-character segments, 2^63-sized numbers.
+members* — 300 and 1100-entry containers, 300-draw bursts, 400-character segments, 2^63-sized numbers;
+(4) *every observable needs an owner* — what the resolver is shown and asked for, the protected header of the k-th
+call, the KB-JWT's own claims, the bytes of the issuer-signed JWT coming out of a holder: each was once compared by
+nobody and is now compared by one named clause; (5) *the oracles must not share the library's arithmetic* — digests,
+sd_hash, framing and (since round 9) JWS signatures are recomputed by the harness, and credentials written by "another
+implementation" (other layouts, spellings, escapes) are part of the input space, so that a library that is merely
+consistent with itself is not mistaken for a conforming one; (6) *the environment is part of the case* — deep inputs run
+on a 2 MiB stack, every subprocess case and every in-process work item has a time limit, and a check that cannot
+finish ends with a machinery exit instead of hanging; (7) *relations between the things a catalogue already has* —
+a deviation applied twice, two kinds of position sharing one digest, a name and value equal to a sibling's, a value
+valid in one role offered in another (a disclosure in the key-binding slot, the holder's key as an ordinary claim).
 '''
 s=open('/verif/DESIGN.md').read()
 if '\n### 10.6' in s: s=s[:s.index('\n### 10.6')]
